@@ -30,7 +30,7 @@ LISTED = ("set", "setitem", "setcfg", "itemset")
 
 def bounds(tier):
     return {"shapes": W.SHAPES + ["nested-v", "cfglist-v"], "leaves": list(W.catalogue()) if tier == "thorough" else W.quick_leaves(),
-            "depth": 3 if tier == "thorough" else 2, "document_formats": ["json", "yaml", "xml", "bson", "pickle"]}
+            "depth": 3 if tier == "thorough" else 2, "depth_note": "thorough: 3 for the quick tier's leaves, 2 for the other catalogue leaves", "document_formats": ["json", "yaml", "xml", "bson", "pickle"]}
 
 
 def jobs(tier):
@@ -38,7 +38,9 @@ def jobs(tier):
     out = []
     for sh in b["shapes"]:
         for leaf in b["leaves"]:
-            out.append({"name": "ops/%s/%s" % (sh, leaf), "kind": "ops", "shape": sh, "leaf": leaf, "depth": b["depth"], "tier": tier})
+            # thorough: the deeper bound for the quick tier's leaves, the quick bound for the rest of the catalogue
+            depth = b["depth"] if tier != "thorough" or leaf in W.quick_leaves() else 2
+            out.append({"name": "ops/%s/%s" % (sh, leaf), "kind": "ops", "shape": sh, "leaf": leaf, "depth": depth, "tier": tier})
     for sh in ("nested+late", "cfglist+late", "nested+env", "nested+off"):
         for leaf in ["int09", "str-norm", "list-int", "dict-typed", "bool"]:
             out.append({"name": "ops/%s/%s" % (sh, leaf), "kind": "ops", "shape": sh, "leaf": leaf, "depth": b["depth"], "tier": tier})
